@@ -3,9 +3,12 @@ package rt
 // C09 — the request context travels with the call and back.
 
 import (
+	"bytes"
 	"fmt"
 	"strconv"
+	"strings"
 	"sync"
+	"sync/atomic"
 	"testing"
 	"time"
 
@@ -26,6 +29,9 @@ type c09Case struct {
 	Calls     int    `json:"calls"`   // sequential calls on the same env (op id freshness)
 	Outcome   string `json:"outcome"` // ok | declared | error (rpc only)
 	Reuse     bool   `json:"reuse"`   // all calls of the case reuse one FContext (allowed once a request has completed)
+	// Burst (rpc): after the sequential calls, that many calls are made at once, each with its own
+	// FContext, and requests are decoded concurrently; every received context needs its own op id
+	Burst int `json:"burst,omitempty"`
 }
 
 func genUserPairs(t *rapid.T, label string, max int) []KV {
@@ -52,6 +58,13 @@ func genC09(t *rapid.T) c09Case {
 	if c.Mode == "rpc" {
 		c.Transport = rapid.SampledFrom([]string{"loop", "loop", "tcp", "http", "nats"}).Draw(t, "transport")
 		c.Outcome = rapid.SampledFrom([]string{"ok", "ok", "declared", "error"}).Draw(t, "outcome")
+		if c.Transport == "nats" && rapid.IntRange(0, 3).Draw(t, "toolarge") == 0 {
+			// the handler's result does not fit a NATS message: the caller gets RESPONSE_TOO_LARGE
+			c.Outcome = "toolarge"
+		}
+		if rapid.IntRange(0, 2).Draw(t, "burst?") == 0 {
+			c.Burst = rapid.IntRange(2, 8).Draw(t, "burst")
+		}
 	} else {
 		c.Transport = rapid.SampledFrom([]string{"nats", "stomp"}).Draw(t, "transport")
 	}
@@ -95,8 +108,11 @@ func classifyC09(c c09Case) ev.Class {
 	if c.Calls > 1 {
 		labels = append(labels, "several-calls-one-connection")
 	}
+	if c.Burst > 0 {
+		labels = append(labels, "concurrent-calls")
+	}
 	nt := (len(c.User) >= 1 && (len(c.Resp) >= 1 || c.Mode == "pubsub")) || c.TimeoutMs != 5000
-	return ev.Class{NonTrivial: nt, Key: fmt.Sprintf("%s|%s|%s|%x|%x|%s|%d|%d|%s", c.Mode, c.Transport, c.Proto, canonPairs(c.User), canonPairs(c.Resp), c.Cid, c.TimeoutMs, c.Calls, c.Outcome), Labels: labels}
+	return ev.Class{NonTrivial: nt, Key: fmt.Sprintf("%s|%s|%s|%x|%x|%s|%d|%d|%s", c.Mode, c.Transport, c.Proto, canonPairs(c.User), canonPairs(c.Resp), c.Cid, c.TimeoutMs, c.Calls, c.Outcome) + fmt.Sprint(c.Burst), Labels: labels}
 }
 
 var (
@@ -202,8 +218,18 @@ func execC09(c c09Case) *ev.Failure {
 func execC09RPC(c c09Case) *ev.Failure {
 	var mu sync.Mutex
 	var seen []seenCtx
+	var burstOps []string
 	h := &svcHandler{
 		echo: func(ctx frugal.FContext, v string) (string, error) {
+			if b, ok := ctx.RequestHeader("burst-call"); ok {
+				// concurrent phase: answer with this call's own marker, note the received op id
+				ctx.AddResponseHeader("burst-reply", b)
+				op, _ := ctx.RequestHeader("_opid")
+				mu.Lock()
+				burstOps = append(burstOps, op)
+				mu.Unlock()
+				return "burst:" + b, nil
+			}
 			mu.Lock()
 			seen = append(seen, seenCtx{ctx.RequestHeaders(), ctx.CorrelationID(), ctx.Timeout()})
 			callNo := len(seen) - 1
@@ -212,6 +238,8 @@ func execC09RPC(c c09Case) *ev.Failure {
 				ctx.AddResponseHeader(string(p.K), string(p.V))
 			}
 			switch c.Outcome {
+			case "toolarge":
+				return strings.Repeat("L", 1<<20+1000), nil
 			case "declared":
 				return "", &oopsError{"declared"}
 			case "error":
@@ -221,7 +249,11 @@ func execC09RPC(c c09Case) *ev.Failure {
 		},
 		fire: func(ctx frugal.FContext, v string) error { return nil },
 	}
-	env, err := newRPCEnv(c.Transport, c.Proto, newSvcProcessor(h), rpcOpts{})
+	opts := rpcOpts{}
+	if c.Burst > 0 {
+		opts.natsWorkers = 4
+	}
+	env, err := newRPCEnv(c.Transport, c.Proto, newSvcProcessor(h), opts)
 	if err != nil {
 		return ev.Failf("harness:env", "%v", err)
 	}
@@ -267,6 +299,10 @@ func execC09RPC(c c09Case) *ev.Failure {
 			if ae, ok := cerr.(thrift.TApplicationException); !ok || ae.TypeId() != frugal.APPLICATION_EXCEPTION_INTERNAL_ERROR {
 				return ev.Failf("call-failed", "%s: want INTERNAL_ERROR, got %T %v", where, cerr, cerr)
 			}
+		case "toolarge":
+			if !isTooLarge(cerr, frugal.TRANSPORT_EXCEPTION_RESPONSE_TOO_LARGE) {
+				return ev.Failf("call-failed", "%s: want RESPONSE_TOO_LARGE, got %T %v", where, cerr, cerr)
+			}
 		}
 		mu.Lock()
 		n := len(seen)
@@ -303,6 +339,92 @@ func execC09RPC(c c09Case) *ev.Failure {
 		}
 		if m["_cid"] != wantCid {
 			return ev.Failf("reply-cid", "%s: reply carries correlation id %q, request had %q", where, m["_cid"], wantCid)
+		}
+	}
+	if c.Burst > 0 {
+		return c09Burst(c, env, &mu, &burstOps)
+	}
+	return nil
+}
+
+// c09Burst: Burst calls at once, each with its own FContext; then request headers are decoded
+// by several goroutines at once, the way concurrent server workers do. Every caller gets the
+// response headers of its own call and every received context has an op id of its own.
+func c09Burst(c c09Case, env *rpcEnv, mu *sync.Mutex, burstOps *[]string) *ev.Failure {
+	where := fmt.Sprintf("rpc %s/%s, %d concurrent calls", c.Transport, c.Proto, c.Burst)
+	fails := make([]*ev.Failure, c.Burst)
+	var wg sync.WaitGroup
+	start := make(chan struct{})
+	for k := 0; k < c.Burst; k++ {
+		wg.Add(1)
+		go func(k int) {
+			defer wg.Done()
+			ctx := frugal.NewFContext("").SetTimeout(20 * time.Second)
+			ctx.AddRequestHeader("burst-call", fmt.Sprint(k))
+			<-start
+			r, err := env.client.Echo(ctx, "b")
+			if err != nil || r != "burst:"+fmt.Sprint(k) {
+				fails[k] = ev.Failf("call-failed:concurrent", "%s: call %d returned %q, %v", where, k, r, err)
+				return
+			}
+			if g, _ := ctx.ResponseHeader("burst-reply"); g != fmt.Sprint(k) {
+				fails[k] = ev.Failf("response-header-lost:concurrent", "%s: call %d sees response header burst-reply=%q, its handler set %q", where, k, g, fmt.Sprint(k))
+			}
+		}(k)
+	}
+	close(start)
+	wg.Wait()
+	for _, f := range fails {
+		if f != nil {
+			return f
+		}
+	}
+	mu.Lock()
+	ops := append([]string{}, *burstOps...)
+	mu.Unlock()
+	if len(ops) != c.Burst {
+		return ev.Failf("handler-count", "%s: handler ran %d times", where, len(ops))
+	}
+	for _, op := range ops {
+		if f := noteOp(op, where+" (received context)"); f != nil {
+			return f
+		}
+	}
+	// the server-side decoding step on its own, under contention
+	frame := refFrame(frameContent([]KV{kv("_opid", "9223372036854775812"), kv("_cid", "c")}, thriftMessage(c.Proto, "echo", thrift.CALL, &strStruct{Name: "echo_args", ID: 1, V: sp("x")})))
+	const workers, rounds = 8, 3000
+	got := make([][]string, workers)
+	var derr atomic.Value
+	start2 := make(chan struct{})
+	for w := 0; w < workers; w++ {
+		wg.Add(1)
+		go func(w int) {
+			defer wg.Done()
+			pf := fpf(c.Proto)
+			<-start2
+			for i := 0; i < rounds; i++ {
+				ctx, err := pf.GetProtocol(&thrift.TMemoryBuffer{Buffer: bytes.NewBuffer(frame[4:])}).ReadRequestHeader()
+				if err != nil {
+					derr.Store(err)
+					return
+				}
+				op, _ := ctx.RequestHeader("_opid")
+				got[w] = append(got[w], op)
+			}
+		}(w)
+	}
+	close(start2)
+	wg.Wait()
+	if e := derr.Load(); e != nil {
+		return ev.Failf("harness:decode", "%v", e)
+	}
+	seenOp := map[string]bool{}
+	for _, l := range got {
+		for _, op := range l {
+			if seenOp[op] || op == "9223372036854775812" {
+				return ev.Failf("opid-collision", "%s: %d goroutines decoding request headers concurrently produced contexts sharing op id %s", where, workers, op)
+			}
+			seenOp[op] = true
 		}
 	}
 	return nil
